@@ -494,6 +494,13 @@ func checkC18(tier string) {
 		sc.Real = true
 		sc.Note += " real-directory"
 		c.count("real_directory_runs", 1)
+		if k%3 == 0 {
+			// what an earlier run over a longer list leaves behind: the new README followed by one more section
+			for p, b := range twins[k*40].Written() {
+				sc.Disk.Put(p, append(append([]byte{}, b...), []byte("\n### an entry that is no longer listed\n\n```\nold\n```\n\ngenerated go: [gen_old.go](./gen_old.go)\n\n")...), "stale extension")
+				c.count("real_directory_runs_with_stale_extension", 1)
+			}
+		}
 		if _, stale := sc.Disk.Get(filepath.Join(filepath.Dir(filepath.Clean(sc.Argv[0])), "README.md")); stale {
 			c.count("real_directory_runs_with_stale_readme", 1)
 		}
